@@ -40,8 +40,8 @@ Section Disc.
       apply ps_when_d; [apply ps_disc1_disc; apply ps_dyn_added_d1|constructor].
     - unfold ps_ev_del. destruct (ps_find name m); [|constructor].
       apply ps_when_d; [apply ps_disc1_disc; apply ps_cnt_track_d1|].
-      apply ps_when_d; [apply ps_res_deleted_d|].
-      apply ps_untrack_all_d. constructor.
+      apply ps_untrack_all_d.
+      apply ps_when_d; [apply ps_res_deleted_d|constructor].
     - unfold ps_ev_reg. destruct (ps_find name m) as [r|]; [|constructor].
       destruct (negb (psr_observable r)); [constructor|].
       destruct (ps_find_tok tuple token (psr_subs r)); [constructor|].
